@@ -43,8 +43,8 @@ PROPS = {
                 rule="reference-encoded broker packets (short forms, property mixes) under chunking; non-trivial = >= 3 packets to the client incl. one with properties; distinct = distinct trace hash"),
     "C19": dict(level=EXPL, quick=30000, thorough=1000000, extra_sweeps=[("C19diff", 0.25)],
                 rule="hostile broker (mutations + random bytes) with ASan/UBSan, plus a chunking differential (same burst under 3 read chunkings must give the same logical trace); non-trivial = at least one hostile packet was delivered; distinct = distinct trace hash"),
-    "C20": dict(level="fault_enumeration", quick=0, thorough=0, components=["rc_table"], components_only=True, exhaustive=True,
-                rule="complete enumeration of 9 categories x 256 byte values"),
+    "C20": dict(level="fault_enumeration", quick=0, thorough=0, components=["rc_table"], exhaustive=True, enumerate_sweep=("C20x", 4608),
+                rule="complete enumeration of 9 categories x 256 byte values: through to_reason_code in an ASan-guarded TU (2304 cases) and through one simulated exchange per (chunking, category, byte) (4608 runs); every case is distinct"),
 }
 
 
